@@ -134,15 +134,15 @@ def main(a):
         engines_used.add("kani-cbmc")
         by_cfg = {}
         for h in harnesses:
-            by_cfg.setdefault(h.cfg, []).append(h)
+            by_cfg.setdefault((h.cfg, h.kani_args), []).append(h)
         with Scratch("kani-" + pid) as sc:
             try:
                 inject_summary = kani_engine.prepare(sc)
             except kani_engine.Undecided as e:
                 undecided.append(("kani-inject", str(e)))
                 by_cfg = {}
-            for cfg, hs in by_cfg.items():
-                results, info = kani_engine.run_group(sc, cfg, hs)
+            for (cfg, kargs), hs in by_cfg.items():
+                results, info = kani_engine.run_group(sc, cfg, hs, extra_args=kargs.split() if kargs else None)
                 checker_cmds.append(info["cmd"])
                 for h in hs:
                     r = results[h.name]
@@ -151,7 +151,7 @@ def main(a):
                     solver_s += r.get("solver_s", 0.0)
                     ev = {"engine": "kani-cbmc", "unit": h.name, "kind": h.kind, "cfg": cfg, "status": r["status"],
                           "checks": r["checks"], "passed": r["passed"], "covers": r.get("covers", 0),
-                          "functions_under_contract": h.funcs, "contract": h.contract, "wall_s": r["wall_s"],
+                          "functions_under_contract": h.funcs, "contract": h.contract, "wall_s": r["wall_s"], "kani_args": h.kani_args,
                           "solver_s": r.get("solver_s"), "stubs": r.get("stubs", [])}
                     if h.kind == "bounded":
                         bounded_obl += r["checks"]
